@@ -148,6 +148,32 @@ CLAIMED["C15"] = ("DESIGN.md §4 C15",
 
 NOT_YET = {}
 
+# clauses added after the independent seeded changes were run against the checks (DESIGN.md §7.5): (extra technique, extra text)
+ADDED = {
+    "C01": ("", " Also: the keep-alive flag is re-assigned on every path from the parse to its test (no disposition inherited from an earlier request); "
+                "the idle timeout is armed only around the one-byte first read and cleared before the rest of the request is read."),
+    "C02": ("", " Also: once the stream is wrapped in a BufReader every later read goes through it (no get_mut/into_inner bypass); each X-Forwarded-For "
+                "element reaches IpAddr::from_str through trimming only, helpers followed."),
+    "C03": ("; abstract execution of the end-of-input scenario of read loops (hv/eofscan)",
+            " Also (PROGRESS.eof): every parser loop whose cycle contains an EOF-tolerant read is executed on an abstract store in which the read returned Ok(0) "
+            "and the per-cycle buffer is empty; a cycle that comes back to the read with every branch decided is a violation."),
+    "C04": ("", " Also: the handler served on a connection is looked up afresh for each request (no handler cached across the loop)."),
+    "C06": ("", " Also: the path looked up is request.uri with the route prefix removed exactly once (library: strip_prefix(..).unwrap_or; server: one remove(0) per "
+                "pattern character before `*`) and nothing else."),
+    "C08": ("", " Also: the recovery thread never returns while the channel is open; no collection of dequeued tasks is alive while a task runs (unwind path)."),
+    "C11": ("; R-ARITH quasi-linear decision of the SHA-1 padding arithmetic for every key length",
+            " Also: the non-blocking probe restores blocking mode on every return after set_nonblocking succeeded and reads the rest of a frame in blocking mode; "
+            "the SHA-1 padding used for Sec-WebSocket-Accept is exact for every input length."),
+    "C12": ("", " Also: the poll loop contains no blocking receive / join / wait."),
+    "C17": ("", " Also: the Vec<User> database matches users and sessions by whole-string equality of uid / token (predicate closures, helpers and Option::map_or followed)."),
+    "C18": ("; R-ARITH (hv/qlin, hv/symx): quasi-linear / piecewise integer expressions extracted from MIR decided for every input by a periodic case split",
+            " Also decided for every input: SHA-1 padded length, marker index, bit-count position and value, block-loop bound; HTTP date day number, second of day, "
+            "weekday, hour, minute, second as functions of the timestamp. Year / month / day-of-month are not decided."),
+    "C19": ("", " Also: every listed X-Forwarded-For element is recorded (trim-only derivation, elements dropped only when IpAddr::from_str rejects them)."),
+    "C20": ("", " Also: nothing in the accept cycle blocks other than accept (bounded channels, joins, sleeps are rejected); tokio connection tasks are detached "
+                "(no JoinSet / abort handle whose drop would cut responses in flight)."),
+}
+
 NOT_APPLICABLE = {
     "C05": "Correctness of the wildcard matcher is a language-equivalence fact about a loop with data-dependent backtracking over all "
            "(pattern, text) pairs; no necessary condition visible in the shape of the code separates the current (wrong on '*aab'/'aaab') "
@@ -164,6 +190,8 @@ def main():
         pid = p["id"]
         if pid in CLAIMED:
             ref, tech, text = CLAIMED[pid]
+            if pid in ADDED:
+                tech, text = tech + ADDED[pid][0], text + ADDED[pid][1]
             checks.append({
                 "property_id": pid,
                 "quick_cmd": f"./check {pid} --tier quick",
@@ -193,7 +221,7 @@ def main():
             {"name": "hv-driver", "path": "driver/", "serves_properties": sorted(CLAIMED),
              "kind_free_text": "rustc_private fact extractor (nightly): MIR with resolved callees, drop-elaborated MIR, HIR trees, items, macro token trees; injected as RUSTC_WORKSPACE_WRAPPER under cargo check; nothing is executed"},
             {"name": "hv", "path": "hv/", "serves_properties": sorted(CLAIMED),
-             "kind_free_text": "Python rule engine over the extracted facts: table agreement, must-pass-through, dominance (check-then-use), backward slicing/taint, who-may-call, panic-site inventory, lock typestate, macro-arm lints, sibling cross-checks"},
+             "kind_free_text": "Python rule engine over the extracted facts: table agreement, must-pass-through, dominance (check-then-use), backward slicing/taint, who-may-call, panic-site inventory, lock typestate, macro-arm lints, sibling cross-checks, abstract end-of-input scenario of read loops, quasi-linear integer arithmetic decided for every input"},
         ],
         "checks": checks,
         "not_applicable": na,
